@@ -415,6 +415,7 @@ pub fn query(rng: &mut Rng, u: &Universe, focus: &str) -> Value {
 
 /// hundreds of classes with adversarially similar obfuscated names, one or two methods each
 pub fn mapping_many_classes(rng: &mut Rng, n: usize) -> Vec<u8> {
+    let n = if rng.chance(1, 4) { ladder(rng, 1100).max(n.min(30)) } else { n };
     let parts: &[&str] = &["a", "b", "a$", "a.", "aa", "é", "A", "a$a", "a.a", "ab", "$", "a-", "a0"];
     let mut out = String::new();
     for k in 0..n {
@@ -464,7 +465,7 @@ pub fn trace_line(rng: &mut Rng, u: &Universe) -> String {
 
 pub fn trace_text(rng: &mut Rng, u: &Universe) -> String {
     let mut out = String::new();
-    let n = rng.below(9);
+    let n = if rng.chance(1, 15) { ladder(rng, 300) } else { rng.below(9) };
     let crlf = rng.chance(1, 4);
     for k in 0..n {
         out.push_str(&trace_line(rng, u));
@@ -485,8 +486,8 @@ fn opt_json(s: Option<&str>) -> Value {
 /// a typed trace (levels, outermost first) over the universe; `canonical` keeps it inside the
 /// round-trip domain of C17
 pub fn typed_levels(rng: &mut Rng, u: &Universe, canonical: bool) -> Value {
-    // usually shallow; now and then a long cause chain
-    let depth = if rng.chance(1, 6) { rng.range(6, 40) } else { rng.range(1, 5) };
+    // usually shallow; now and then a long cause chain (sizes from the ladder)
+    let depth = if rng.chance(1, 6) { ladder(rng, 70).max(6) } else { rng.range(1, 5) };
     let mut levels = vec![];
     for d in 0..depth {
         let exc = if d > 0 || rng.chance(3, 4) || !canonical && rng.chance(1, 2) {
@@ -498,7 +499,7 @@ pub fn typed_levels(rng: &mut Rng, u: &Universe, canonical: bool) -> Value {
         };
         let mut frames = vec![];
         let many = rng.chance(1, 10);
-        let nf = if d == 0 && exc == json!([]) { rng.range(1, 4) } else { rng.below(if many { 21 } else { 4 }) };
+        let nf = if d == 0 && exc == json!([]) { rng.range(1, 4) } else if many && depth < 8 { ladder(rng, 260) } else { rng.below(4) };
         for _ in 0..nf {
             let class = name_from(rng, &u.classes, &["zz.Unknown", "q.R$S", "é.Z"]);
             let method = name_from(rng, &u.methods, &["nosuch", "<init>"]).replace('.', "_");
@@ -516,7 +517,8 @@ const DESC_OBJ: &[&str] = &["x", "I", "ib/Long", "é/b", "x/Long", "a", "b", "ja
 
 pub fn desc_type(rng: &mut Rng, u: &Universe, allow_void: bool) -> String {
     let mut s = String::new();
-    for _ in 0..(if rng.chance(1, 3) { rng.range(1, 3) } else { 0 }) {
+    let dims = if rng.chance(1, 40) { ladder(rng, 300) } else if rng.chance(1, 3) { rng.range(1, 3) } else { 0 };
+    for _ in 0..dims {
         s.push('[');
     }
     match rng.below(if allow_void { 12 } else { 11 }) {
@@ -538,7 +540,8 @@ pub fn desc_type(rng: &mut Rng, u: &Universe, allow_void: bool) -> String {
 /// G-desc: valid descriptors with 0..6 parameters, single-edit corruptions, arbitrary strings
 pub fn descriptor(rng: &mut Rng, u: &Universe) -> String {
     let mut s = String::from("(");
-    for _ in 0..rng.below(7) {
+    let nparams = if rng.chance(1, 12) { ladder(rng, 300) } else { rng.below(7) };
+    for _ in 0..nparams {
         s.push_str(&desc_type(rng, u, false));
     }
     s.push(')');
@@ -608,10 +611,19 @@ pub fn unicode_soup(rng: &mut Rng) -> String {
     t
 }
 
+/// sizes just around the thresholds implementations like to hard-code (powers of two, 20 for the
+/// standard library's small-sort cut-off, LEB128 and u8/u16 limits)
+pub const LADDER: &[usize] = &[1, 2, 3, 7, 8, 9, 16, 17, 20, 21, 32, 33, 50, 51, 64, 65, 127, 128, 129, 255, 256, 257, 1024, 1025];
+
+pub fn ladder(rng: &mut Rng, max: usize) -> usize {
+    let opts: Vec<usize> = LADDER.iter().cloned().filter(|x| *x <= max).collect();
+    rng.pick(&opts)
+}
+
 /// one class with many (25..80) method lines over a handful of obfuscated names in shuffled order,
 /// every line with its own range: file order inside a name group is observable
 pub fn mapping_big_class(rng: &mut Rng) -> Vec<u8> {
-    let n = rng.range(25, 80);
+    let n = if rng.chance(1, 3) { ladder(rng, 300).max(21) } else { rng.range(25, 80) };
     let names = ["a", "b", "c", "zz", "a$1"];
     let mut out = String::from("com.example.Big -> o.a:\n");
     for k in 0..n {
